@@ -258,6 +258,24 @@ class Check(PropertyCheck):
             if hash(x) != hash(z):
                 res.append(("hash", "equal operations of a subclass hash differently"))
 
+            # a subclass WITHOUT __slots__ that sets an optional attribute only when it is given: == says the same both ways
+            class OptOperation(jsl.Operation):
+                def __init__(self, machines, duration, due_date=None, note=None):
+                    super().__init__(machines, duration)
+                    if due_date is not None:
+                        self.due_date = due_date
+                    if note is not None:
+                        self.note = note
+            oa, ob, oc = OptOperation(0, 5, due_date=3), OptOperation(0, 5), OptOperation(0, 5, note="x")
+            for a_, b_ in ((oa, ob), (ob, oc), (oa, oc)):
+                if (a_ == b_) != (b_ == a_):
+                    res.append(("symmetry", "operations of a subclass without __slots__ (an optional attribute set on one of them only): "
+                                f"a == b is {a_ == b_}, b == a is {b_ == a_}"))
+                    break
+            i_a = jsl.JobShopInstance([[oa]], set_operation_attributes=False)
+            i_b = jsl.JobShopInstance([[ob]], set_operation_attributes=False)
+            if (i_a == i_b) != (i_b == i_a):
+                res.append(("symmetry", "instances holding such operations: a == b and b == a differ"))
             # a subclass that adds behaviour but no data, next to a plain operation with the same content: whatever == says, it says
             # it both ways, and if they are equal they hash equally (and find each other in a dictionary)
             class TimedOperation(jsl.Operation):
